@@ -63,19 +63,44 @@ theorem register_shape :
        "assign key := Registration{\"topic\", topic, \"\"}"] ∧
     Lookupd.callsRegister = ["getTopicChan", "AddProducer", "AddProducer"] := by decide
 
-theorem unregister_shape :
+/-- UNREGISTER as in the tree (RemoveProducer, then RemoveRegistration when `left == 0` and the
+name is ephemeral: two critical sections) … -/
+def unregisterShapeTwoSections : Prop :=
     Lookupd.unregisterGuards =
       ["if client.peerInfo == nil", "if channel != \"\"",
        "assign key := Registration{\"channel\", topic, channel}",
        "assign removed, left := p.nsqlookupd.DB.RemoveProducer(key, client.peerInfo.id)",
        "if left == 0 && strings.HasSuffix(channel, \"#ephemeral\")",
        "assign registrations := p.nsqlookupd.DB.FindRegistrations(\"channel\", topic, \"*\")",
+       "assign removed, _ := p.nsqlookupd.DB.RemoveProducer(r, client.peerInfo.id)",
        "assign key := Registration{\"topic\", topic, \"\"}",
        "assign removed, left := p.nsqlookupd.DB.RemoveProducer(key, client.peerInfo.id)",
        "if left == 0 && strings.HasSuffix(topic, \"#ephemeral\")"] ∧
     Lookupd.callsUnregister =
       ["getTopicChan", "RemoveProducer", "RemoveRegistration", "FindRegistrations", "RemoveProducer",
-       "RemoveProducer", "RemoveRegistration"] := by decide
+       "RemoveProducer", "RemoveRegistration"] ∧
+    Lookupd.pruneStmts = []
+
+/-- … or with the proposed fix F12 (`RemoveProducerAndPrune`: one critical section). Both have
+the sequential behaviour of `unregisterDB`. -/
+def unregisterShapeAtomic : Prop :=
+    Lookupd.unregisterGuards =
+      ["if client.peerInfo == nil", "if channel != \"\"",
+       "assign key := Registration{\"channel\", topic, channel}",
+       "assign removed, _ := p.nsqlookupd.DB.RemoveProducerAndPrune(key, client.peerInfo.id, strings.HasSuffix(channel, \"#ephemeral\"))",
+       "assign registrations := p.nsqlookupd.DB.FindRegistrations(\"channel\", topic, \"*\")",
+       "assign removed, _ := p.nsqlookupd.DB.RemoveProducer(r, client.peerInfo.id)",
+       "assign key := Registration{\"topic\", topic, \"\"}",
+       "assign removed, _ := p.nsqlookupd.DB.RemoveProducerAndPrune(key, client.peerInfo.id, strings.HasSuffix(topic, \"#ephemeral\"))"] ∧
+    Lookupd.callsUnregister =
+      ["getTopicChan", "RemoveProducerAndPrune", "FindRegistrations", "RemoveProducer", "RemoveProducerAndPrune"] ∧
+    Lookupd.pruneStmts =
+      ["assign producers, ok := r.registrationMap[k]", "assign left := len(producers)", "if prune && left == 0"]
+
+instance : Decidable unregisterShapeTwoSections := by unfold unregisterShapeTwoSections; infer_instance
+instance : Decidable unregisterShapeAtomic := by unfold unregisterShapeAtomic; infer_instance
+
+theorem unregister_shape : unregisterShapeTwoSections ∨ unregisterShapeAtomic := by decide
 
 /-- `FilterByActive` / `IsTombstoned` / `Tombstone`: strict `>` for inactivity, strict `<` for the
 tombstone lifetime (`activeB`, `isTombstoned` in the model) -/
